@@ -1,5 +1,6 @@
 """bin/check entry point"""
 import argparse
+import signal
 import importlib
 import os
 import sys
@@ -10,6 +11,10 @@ from .report import Check
 
 
 def main():
+    try:
+        signal.signal(signal.SIGPIPE, signal.SIG_DFL)
+    except (AttributeError, ValueError):
+        pass
     ap = argparse.ArgumentParser()
     ap.add_argument('property')
     ap.add_argument('--tier', default=os.environ.get('VERIF_TIER', 'quick'), choices=['quick', 'thorough'])
